@@ -33,42 +33,8 @@ func checkC06(c *Ctx) (string, []string) {
 	}
 	c.Rule("C06.layout", "the arguments of every allocateMemorySegment/allocateStack call, the initial registers and the heap bounds of SingleInitializer equal GP A.37–A.40 over |o|,|w|,z,s,|a| (RO [Z_Z, Z_Z+|o|) padded to Z_Z+P(|o|); RW [2Z_Z+Z(|o|), +|w|) padded to +P(|w|)+z·Z_P; stack [2^32−2Z_Z−Z_I−P(s), 2^32−2Z_Z−Z_I); arguments [2^32−Z_Z−Z_I, +|a|) padded to +P(|a|); access R,W,W,R; ω0,ω1,ω7,ω8; heap pointer = end of RW zone, heap limit = stack start), with z·Z_P computed in 32 bits", 12)
 	dec := "PVM.DecodeSerializedValues(p0)"
-	o, w, z, s := "len("+dec+"#1)", "len("+dec+"#2)", dec+"#3", dec+"#4"
-	mem := "cell(alloc:PVM.Memory)"
-	_ = mem
-	roS := "65536"
-	roE := "(65536 + u32(" + o + "))"
-	roP := "(65536 + PVM.P(" + o + "))"
-	rwS := "(131072 + PVM.Z(" + o + "))"
-	rwE := "(" + rwS + " + u32(" + w + "))"
-	rwP := "((" + rwS + " + PVM.P(" + w + ")) + (4096 * u32(" + z + ")))"
-	stE := "4278059008"
-	stS := "(4278059008 - PVM.P(int(" + s + ")))"
-	arS := "4278124544"
-	arE := "(4278124544 + u32(len(p1)))"
-	arP := "(4278124544 + PVM.P(len(p1)))"
-	M := "alloc:PVM.Memory"
-	want := []string{
-		"call PVM.allocateMemorySegment(" + M + ", " + roS + ", " + roE + ", " + dec + "#1, 1)",
-		"call PVM.allocateMemorySegment(" + M + ", " + roE + ", " + roP + ", nil, 1)",
-		"call PVM.allocateMemorySegment(" + M + ", " + rwS + ", " + rwE + ", " + dec + "#2, 2)",
-		"call PVM.allocateMemorySegment(" + M + ", " + rwE + ", " + rwP + ", nil, 2)",
-		"call PVM.allocateStack(" + M + ", " + stS + ", " + stE + ")",
-		"call PVM.allocateMemorySegment(" + M + ", " + arS + ", " + arE + ", p1, 1)",
-		"call PVM.allocateMemorySegment(" + M + ", " + arE + ", " + arP + ", nil, 1)",
-		"store &alloc:PVM.Registers[0] ← 4294901760",
-		"store &alloc:PVM.Registers[1] ← 4278059008",
-		"store &alloc:PVM.Registers[7] ← 4278124544",
-		"store &alloc:PVM.Registers[8] ← u64(len(p1))",
-	}
-	c.checkEffects("C06.layout", "PVM.SingleInitializer", f, eff, want)
-	c.checkShapes("C06.layout", "PVM.SingleInitializer · Memory", f, returnShapes(f), map[string][]string{
-		"ret#2.heapPointer": {"u64(" + rwP + ")"},
-		"ret#2.heapLimit":   {"u64(" + stS + ")"},
-		"ret#2.Pages":       {"makemap"},
-	})
-	c.checkShapes("C06.layout", "PVM.P", fP, returnShapes(fP), map[string][]string{"ret": {"((((4096 + u32(p0)) - 1) / 4096) * 4096)"}})
-	c.checkShapes("C06.layout", "PVM.Z", fZ, returnShapes(fZ), map[string][]string{"ret": {"((((65536 + u32(p0)) - 1) / 65536) * 65536)"}})
+	c06LayoutByEvaluation(c, f)
+	_, _, _, _ = eff, lit, fP, fZ
 	// results: code = decoded c, registers, memory; ExitPanic on decode error
 	c.checkShapes("C06.layout", "PVM.SingleInitializer · results", f, returnShapes(f), map[string][]string{
 		"ret#0": {dec + "#0", "nil"},
